@@ -16,10 +16,52 @@ theorem view_of_frame0 {h h' : Heap} (f : Frame h h' (fun _ => False)) (n : Stri
       f.same (o.base + 1) ⟨n, o, ho, by omega, by omega⟩ (fun x => x),
       f.same (o.base + 2) ⟨n, o, ho, by omega, by omega⟩ (fun x => x)]
 
-/-- `Recycle()` -/
+/-- unbinding a name keeps the invariant -/
+theorem unbind_inv {h : Heap} (hI : Inv h) (a : String) : Inv (h.unbind a) := by
+  have hobj : ∀ n o, (h.unbind a).objs n = some o → n ≠ a ∧ h.objs n = some o := by
+    intro n o ho
+    change (if n = a then none else h.objs n) = some o at ho
+    by_cases e : n = a
+    · rw [if_pos e] at ho; cases ho
+    · rw [if_neg e] at ho; exact ⟨e, ho⟩
+  have hfld : ∀ d, Fld (h.unbind a) d → Fld h d := by
+    rintro d ⟨n, o, ho, h1, h2⟩
+    exact ⟨n, o, (hobj n o ho).2, h1, h2⟩
+  have hown : ∀ d, Owner (h.unbind a) d → Owner h d := by
+    intro d hd
+    rcases hd with hd | hd
+    · exact Or.inl hd
+    · exact Or.inr (hfld d hd)
+  refine ⟨fun c hc hf => hI.poolNotFld c hc (hfld c hf), hI.poolNodup, ?_, ?_, fun c hc => hI.cellLt c (hown c hc),
+    hI.cellFresh, fun c s hc hs => hI.bufLt c s (hown c hc) hs, fun c s hc hs => hI.lenLe c s (hfld c hc) hs⟩
+  · intro c d s t oc od hs ht heq; exact hI.sep c d s t (hown c oc) (hown d od) hs ht heq
+  · intro n m o o' ho ho' hnm; exact hI.disj n m o o' (hobj n o ho).2 (hobj m o' ho').2 hnm
+
+/-- `Recycle()` (as it is now: the three slices move to local variables, which go to the pool) -/
 theorem recycleObj_spec {h : Heap} (hI : Inv h) {a : String} {oa : HObj} (ha : h.objs a = some oa) :
     Inv (h.recycleObj a oa.base) ∧ (∀ n, n ≠ a → (h.recycleObj a oa.base).view n = h.view n) ∧
       (h.recycleObj a oa.base).objs a = none := by
+  have hF : ∀ i, i < 3 → Fld h (oa.base + i) := fun i hi => fld_of ha i hi
+  have f0 : TF h h oa.base := Frame.refl hI _
+  have f1 : TF h (h.detachRecycle oa.base) oa.base :=
+    TF.step (i := 0) f0 (detachRecycle_frame f0.inv ((f0.fld _).mpr (hF 0 (by omega)))).1 (by omega)
+  have f2 : TF h ((h.detachRecycle oa.base).detachRecycle (oa.base + 2)) oa.base :=
+    TF.step (i := 2) f1 (detachRecycle_frame f1.inv ((f1.fld _).mpr (hF 2 (by omega)))).1 (by omega)
+  have f3 : TF h (((h.detachRecycle oa.base).detachRecycle (oa.base + 2)).detachRecycle (oa.base + 1)) oa.base :=
+    TF.step (i := 1) f2 (detachRecycle_frame f2.inv ((f2.fld _).mpr (hF 1 (by omega)))).1 (by omega)
+  refine ⟨unbind_inv f3.inv a, ?_, ?_⟩
+  · intro n hn
+    rw [← view_of_frame hI ha f3 n hn]
+    unfold Heap.view Heap.recycleObj Heap.unbind
+    show Option.map _ (if n = a then none else _) = _
+    rw [if_neg hn]; rfl
+  · show (if a = a then none else _) = none
+    simp
+
+/-- `Recycle()` as it was before the repair of the race (`Heap.recycleObjOld`) -/
+theorem recycleObjOld_spec {h : Heap} (hI : Inv h) {a : String} {oa : HObj} (ha : h.objs a = some oa) :
+    Inv (h.recycleObjOld a oa.base) ∧ (∀ n, n ≠ a → (h.recycleObjOld a oa.base).view n = h.view n) ∧
+      (h.recycleObjOld a oa.base).objs a = none := by
   let h0 : Heap := { h with objs := fun n => if n = a then none else h.objs n }
   have hobj : ∀ n o, h0.objs n = some o → n ≠ a ∧ h.objs n = some o := by
     intro n o ho
@@ -62,7 +104,7 @@ theorem recycleObj_spec {h : Heap} (hI : Inv h) {a : String} {oa : HObj} (ha : h
   obtain ⟨f2, l2⟩ := rstep_loose f1.inv (l1 (oa.base + 2) (by omega) (hloose 2 (by omega)))
   have l21 := l2 (oa.base + 1) (by omega) (l1 (oa.base + 1) (by omega) (hloose 1 (by omega)))
   obtain ⟨f3, _⟩ := rstep_loose f2.inv l21
-  have f : Frame h0 (h.recycleObj a oa.base) (fun _ => False) :=
+  have f : Frame h0 (h.recycleObjOld a oa.base) (fun _ => False) :=
     ((f1.trans f2).trans f3).weaken (by intro d hd; rcases hd with (hd | hd) | hd <;> exact hd)
   refine ⟨f.inv, ?_, ?_⟩
   · intro n hn
